@@ -272,6 +272,33 @@ Proof.
   - left. reflexivity.
 Qed.
 
+(* the three views of one run's duration agree: the execution_time_ms entry of to_json (hence of
+   save_to_file, which writes to_json) is elapsed() in whole milliseconds of the nanosecond clock
+   - for EVERY duration, in particular no wrap at one second - and is absent exactly when elapsed()
+   is None (snapshot() never carries it: it lists the stored metrics only) *)
+Theorem c16_json_time_is_elapsed_ms :
+  forall s : mstate, json_time s = option_map (fun d => d / 1000000)%Z (elapsed s).
+Proof. exact json_time_elapsed. Qed.
+
+(* ... and after a successful run it is this run's (end - start) in ms, at least the time the
+   run provably took *)
+Theorem c16_json_time_after_run :
+  forall (C R : Type) (plan : outcome C) (exec : C -> outcome R) (clk : nat -> Z)
+         (i j : nat) (m : mstate) (r : R) (slept_ms : Z),
+    monotone clk -> (i <= j)%nat ->
+    ms_poisoned m = false ->
+    fst (run_collect true plan exec clk i j m) = Ok r ->
+    (slept_ms * 1000000 <= clk j - clk i)%Z ->
+    let m' := snd (run_collect true plan exec clk i j m) in
+    json_time m' = Some ((clk j - clk i) / 1000000)%Z /\
+    (slept_ms <= (clk j - clk i) / 1000000)%Z.
+Proof. exact json_time_after_run. Qed.
+
+Example c16_json_time_ex :
+  json_time (run_calls [Reg (-1) (Other 7); RecStart 5; RecEnd 1205000005] empty_state) = Some 1205%Z /\
+  json_time (run_calls [Reg (-1) (Other 7); RecStart 5] empty_state) = None.
+Proof. split; vm_compute; reflexivity. Qed.
+
 (* ... exactly once: duplicate names do not produce duplicate keys *)
 Theorem c16_json_one_entry_per_name :
   forall (threads : list (list call)) (sched : list nat),
